@@ -14,7 +14,12 @@ def c18_check(family, ref_src, q_src, level_mag, ns):
     lu = fam[ref]
     q = eval(q_src, ns)
     bad = []
-    k = 2 if ref.unit.dimension in measured.ROOT_POWER_DIMENSIONS else 1
+    # the root-power (field) quantities, listed here independently of the library's own table
+    M = measured
+    ROOT_POWER = {M.Potential, M.Current, M.Pressure, M.Potential / M.Length, M.Speed, M.Charge / M.Length, M.Charge / M.Area, M.Charge / M.Volume}
+    if set(M.ROOT_POWER_DIMENSIONS) != ROOT_POWER:
+        return ["root-power-table: the library's ROOT_POWER_DIMENSIONS differs from the eight field quantities by %r" % sorted(str(d) for d in set(M.ROOT_POWER_DIMENSIONS) ^ ROOT_POWER)]
+    k = 2 if ref.unit.dimension in ROOT_POWER else 1
     base, pfx = fam.base, float(fam.prefix.quantify())
     def close(a, b, tol=1e-9): return abs(a - b) <= tol * max(abs(a), abs(b), 1.0)
     ratio = float(q.in_unit(ref.unit).magnitude) / float(ref.magnitude)
@@ -30,6 +35,9 @@ def c18_check(family, ref_src, q_src, level_mag, ns):
     L2 = lu.level(q2)
     if not close(float(L2.magnitude), float(level_mag), 1e-7): bad.append("round-trip level->q->level: %r -> %r -> %r" % (level_mag, q2, L2.magnitude))
     if not (L == q2) or not (q2 == L): bad.append("equality: level %r does not compare equal to the quantity it denotes %r" % (level_mag, q2))
+    # strictly increasing also on a fine scale and next to whole-numbered levels (q0 sits at a level of 20, 2 or so)
+    q0 = ref * 100
+    if not (lu.level(q0 * (1 + 2e-9)).magnitude > lu.level(q0).magnitude): bad.append("monotone-fine: level(q (1 + 2e-9)) = %r <= level(q) = %r for q = 100 reference" % (lu.level(q0 * (1 + 2e-9)).magnitude, lu.level(q0).magnitude))
     bigger = lu.level(q * 1.5)
     if not (bigger.magnitude > lv.magnitude): bad.append("monotone: level(1.5 q) = %r <= level(q) = %r" % (bigger.magnitude, lv.magnitude))
     return bad
@@ -49,7 +57,11 @@ def run(tier, seed):
               (["(20 * (Micro * Pascal))", "(1 * (Hecto * Pascal))", "(1 * Pascal)"], ["Pascal", "(Kilo*Pascal)", "(Mega*Pascal)"]),
               (["(1 * Volt)", "(0.775 * Volt)"], ["Volt", "(Milli*Volt)"]),
               (["(1 * Hertz)", "(440 * Hertz)"], ["Hertz", "(Kilo*Hertz)"]),
-              (["(1 * Meter / Second)", "(1 * Knot)", "(1 * Mile / Hour)"], ["Knot", "(Meter / Second)"])]
+              (["(1 * Meter / Second)", "(1 * Knot)", "(1 * Mile / Hour)"], ["Knot", "(Meter / Second)"]),
+              (["(1 * Ampere)", "(5 * (Milli*Ampere))"], ["Ampere", "(Micro*Ampere)"]),
+              (["(1 * Volt / Meter)"], ["(Volt / Meter)", "(Kilo*Volt / Meter)"]),
+              (["(1 * Coulomb / Meter)"], ["(Coulomb / Meter)"]), (["(1 * Coulomb / Meter**2)"], ["(Coulomb / Meter**2)"]),
+              (["(1 * Coulomb / Meter**3)", "(5 * (Micro*Coulomb) / Meter**3)"], ["(Coulomb / Meter**3)"])]
     refs = [(r, q) for rs, qs in groups for r in rs for q in qs if q.strip("()").split("*")[-1] in ns or True]
     n = 250 if tier == "quick" else 20000
     failures, samples, evals, distinct = [], [], 0, set()
@@ -57,7 +69,7 @@ def run(tier, seed):
         fam = rng.choice(fams)
         ref, qu = rng.choice(refs)
         q = "(%r * %s)" % (rng.choice([1, 2, 100, 0.001, 3.7, 1e6]), qu)
-        lm = rng.choice([-200, -30, -3, 0, 0.5, 3, 10, 60, 200])
+        lm = rng.choice([-200, -30, -3, 0, 0.5, 3, 10, 60, 200, 60.00000003, -29.99999998])
         as_decimal = rng.random() < 0.25
         if fam in ("KiloBel",) and abs(lm) > 0.3:
             lm = lm / 1000.0
